@@ -461,7 +461,8 @@ impl LdapConnAsync {
                 if path.is_empty() {
                     return Err(LdapError::EmptyUnixPath);
                 }
-                if path.contains(':') {
+                // host_str() never includes the port, ask for it explicitly
+                if path.contains(':') || url.port().is_some() {
                     return Err(LdapError::PortInUnixPath);
                 }
                 let dec_path = percent_decode(path.as_bytes()).decode_utf8_lossy();
@@ -507,8 +508,8 @@ impl LdapConnAsync {
         }
         let (_hostname, host_port) = match url.host_str() {
             Some(h) if !h.is_empty() => (h, format!("{}:{}", h, port)),
-            Some(h) if !h.is_empty() => ("localhost", format!("localhost:{}", port)),
-            _ => panic!("unexpected None from url.host_str()"),
+            // a missing or empty host means the local host
+            _ => ("localhost", format!("localhost:{}", port)),
         };
         let stream = match settings.std_stream {
             None => TcpStream::connect(host_port.as_str()).await?,
